@@ -41,6 +41,38 @@ CHECK_DEADLOCK FALSE
 REAL = {('z1', 'c1'), ('z2', 'c1'), ('z3', 'c2'), ('z4', 'c2')}
 
 
+def apalache_inductive():
+    """Fresh /\\ MemSound is an inductive invariant of the memory protocol for ALL temperatures (Apalache, symbolic):
+    Init => Inv and Inv /\\ Next => Inv'; with the one-sided temperature test the step must fail (guard)."""
+    import os
+    import shutil
+    import subprocess
+    import tempfile
+    if not shutil.which('apalache-mc'):
+        return 'apalache-mc not available'
+    src = open('/verif/spec/apalache/MemProto.tla').read()
+    d = tempfile.mkdtemp(prefix='verif-apa-')
+    try:
+        def run(name, text, init, length):
+            with open(os.path.join(d, name + '.tla'), 'w') as fh:
+                fh.write(text)
+            p = subprocess.run(['apalache-mc', 'check', '--init=' + init, '--inv=IndInv', '--length=%d' % length, '--out-dir=' + os.path.join(d, 'out'),
+                                name + '.tla'], cwd=d, capture_output=True, text=True, timeout=600)
+            return 'EXITCODE: OK' in p.stdout
+        base = run('MemProto', src, 'Init', 0)
+        step = run('MemProto', src, 'IndInit', 1)
+        dev = src.replace('MODULE MemProto', 'MODULE MemProtoDev').replace('memT = T /\\ memZ = z', 'T <= memT /\\ memZ = z')
+        assert dev != src.replace('MODULE MemProto', 'MODULE MemProtoDev')
+        dev_step = run('MemProtoDev', dev, 'IndInit', 1)
+        if not (base and step):
+            raise tlc.MachineryError('Apalache did not establish the inductive invariant of the memory protocol (base %r, step %r)' % (base, step))
+        if dev_step:
+            raise tlc.MachineryError('Apalache accepted the one-sided temperature test (vacuity guard)')
+        return 'Fresh /\\ MemSound inductive for unbounded temperatures (base and step); the one-sided test fails the step'
+    finally:
+        shutil.rmtree(d, ignore_errors=True)
+
+
 def schedule_trace(tid, path, method, tops):
     w = dl.LLEWorld(method)
     steps = []
@@ -109,6 +141,10 @@ def run(ctx):
     elif not r.ok:
         raise tlc.MachineryError(r.out[-3000:])
     ctx.note('MC LiquidEq (depth %d): %d distinct states, %d transitions' % (depth, r.distinct, r.generated))
+    inductive = 'not run (quick tier)'
+    if not quick:
+        inductive = apalache_inductive()
+        ctx.note('Apalache: ' + inductive)
     files = {'MC_LiquidEqDev.tla': MC_TEMPLATE % dict(name='MC_LiquidEqDev', dev='"T_test_one_sided"', depth=4), 'MC_LiquidEqDev.cfg': MC_CFG}
     rd, _ = tlc.model_check('MC_LiquidEqDev.tla', 'MC_LiquidEqDev.cfg', coverage=False, files=files, timeout=3400)
     if rd.violated not in ('Fresh', 'MemSound'):
@@ -160,7 +196,7 @@ def run(ctx):
     cov = dict(states=r.distinct, transitions=r.generated, traces_validated_against_impl=n_traces, schedules_from_model=n_sched,
                steps_validated_in_contract=stats['ok'], per_operation_in_contract_steps=stats['ops'],
                vacuity_guard='LiquidEq with the one-sided temperature test violates %s; its counterexample schedule is replayed on the real solver' % rd.violated,
-               exhaustive=False, mc_exhaustive_for_cfg=True, mc_depth_bound=depth,
+               exhaustive=False, mc_exhaustive_for_cfg=True, mc_depth_bound=depth, unbounded_inductive_invariant=inductive,
                samples=[dict(ops=[[s['op'], s['a']] for s in traces[0]['steps'][:4]])],
                rule='MC: all sequences (depth bound) of lle calls over 3 temperatures x 3 compositions x 2 chemical sets x reuse allowed / forbidden on the memory '
                     'protocol (Fresh, MemSound); TLC witness schedules are replayed on real streams (reusing stream, non-reusing twin, scaled twin) and the split, '
